@@ -3,6 +3,8 @@ import PsyVerif.Gen.FortranOps
 import PsyVerif.Lemmas.ExprIOMain
 import PsyVerif.Lemmas.ExprIOFuel
 import PsyVerif.Lemmas.ExprIOAdj
+import PsyVerif.Lemmas.ExprIOCanon
+import PsyVerif.Gen.IntrinsicArgs
 /-! # C02 — Written expressions keep the operation order of the PSyIR tree
 
 Model: `PsyVerif/Model/ExprIO.lean`.  `render .narrow` is the writer WITH
@@ -33,6 +35,19 @@ PROVED (kernel-checked, for all such trees with `exposed .top e = false`):
 * the extracted operator/precedence tables equal the model's (`gen_*`), by `decide`.
 * witnesses of every remaining defect class (`narrow_*`, `pinned_*`, literal findings) and the exact
   characterisations `C02_exposed_class`, `C02_canonical_literals`.
+
+READER-SIDE CANONICALISATION OF INTRINSIC ARGUMENTS (`Model/ExprIOCanon.lean`): `read cfg = parse` followed by the
+handler pass `canonTree cfg`, which applies `canonMMS` (= the ordering check of `_process_args` +
+`_canonicalise_minmaxsum`) to every MINVAL/MAXVAL/SUM call and leaves every other call alone.  PROVED for every
+configuration `cfg`: `C02_read_roundtrip_partial` (read ∘ write = canonTree ∘ norm), `C02_read_roundtrip_exact_partial`
+(= identity when, additionally, every MINVAL/MAXVAL/SUM call has its first argument positional and all others named —
+ANY names, ANY order, any number), `C02_read_named_args_any_order` (explicitly for every permutation of the named
+arguments), `C02_canon_produces_canonical`/`C02_canon_idempotent` (what the reader returns for ≤ 3 arguments is in
+canonical form and a fixed point), witnesses for the non-canonical classes (`C02_read_noncanonical_counterexample`).
+`gen_canon_table_matches` (`decide`): the model's `canonMMSCore` equals the LIVE `_canonicalise_minmaxsum` on every
+ordered name pattern of length ≤ 3 over {none, array, dim, mask, kind} (table regenerated on every run);
+`gen_canon_routes`: exactly the intrinsics of `Gen.mmsFns` are routed through that function, each has the optional
+arguments {dim, mask} and one required argument in the live `IntrinsicCall` table.
 
 EVALUATED ONLY (by the harness on every run, not proved): that `render .narrow` equals the real
 `FortranWriter` output token by token, that `parse` agrees with the real `FortranReader` (fparser2)
@@ -264,6 +279,141 @@ theorem C02_canonical_literals (l : Lit) : l.canonical = true ↔
   | bool b p => cases p <;> simp [Lit.canonical, normLit, readLit, Lit.tok, Lit.sign, Sign.unop, Prec.suffix]
   | char t q p => cases q <;> cases p <;> simp [Lit.canonical, normLit, readLit, Lit.tok, Lit.sign, Sign.unop, Prec.suffix]
 
+
+/-! ### reader-side canonicalisation of intrinsic arguments -/
+
+/-- the configuration extracted from the live reader -/
+def liveCfg : IntrCfg := ⟨Gen.mmsFns, Gen.kwArray, Gen.kwDim, Gen.kwMask⟩
+
+/-- **Round trip through the full reader** (grammar + handler pass), narrow-fixed writer, all
+constructs, unbounded depth: what comes back is `canonTree (norm e)`. -/
+theorem C02_read_roundtrip_partial (cfg : IntrCfg) (e ne : Expr) (hw : wf .expr e = true)
+    (hx : exposed .top e = false) (hn : norm e = some ne) :
+    read cfg (render .narrow .top e) = canonTree cfg ne := by
+  simp [read, C02_roundtrip_partial e ne hw hx hn]
+
+/-- With canonical literals and every MINVAL/MAXVAL/SUM call in PSyIR canonical form (first argument
+positional, all further arguments named — with any names, in ANY order) the tree read back is
+structurally the original. -/
+theorem C02_read_roundtrip_exact_partial (cfg : IntrCfg) (e : Expr) (hw : wf .expr e = true)
+    (hx : exposed .top e = false) (hc : litsCanonical e = true) (hm : mmsCanonical cfg e = true) :
+    read cfg (render .narrow .top e) = some e := by
+  rw [C02_read_roundtrip_partial cfg e e hw hx (norm_of_canonical e hc)]
+  exact canonTree_canonical_id cfg e hm
+
+/-- The same, spelt out for permutations: if a call `f(x, named…)` is in the domain then so is the
+call with its named arguments in any other order, and it reads back unchanged. -/
+theorem C02_read_named_args_any_order (cfg : IntrCfg) (f : Nat) (x : Expr)
+    (l l' : List (Option Nat × Expr)) (hp : l.Perm l') (hn : l.all (fun p => p.1.isSome) = true)
+    (hw : wf .expr (.call f (.cons none x (ofArgs l))) = true)
+    (hx : exposed .top (.call f (.cons none x (ofArgs l))) = false)
+    (hc : litsCanonical (.call f (.cons none x (ofArgs l))) = true)
+    (hm : mmsCanonical cfg (.call f (.cons none x (ofArgs l))) = true) :
+    read cfg (render .narrow .top (.call f (.cons none x (ofArgs l')))) =
+      some (.call f (.cons none x (ofArgs l'))) := by
+  have hn' : allNamed (ofArgs l') = true := by rw [allNamed_ofArgs, ← hp.all_eq]; exact hn
+  apply C02_read_roundtrip_exact_partial
+  · simp only [wf, wf_ofArgs, argsOrdered, Bool.and_eq_true] at hw ⊢
+    refine ⟨⟨trivial, hw.1.2.1, ?_⟩, by simp, ?_⟩
+    · rw [← hp.all_eq]; exact hw.1.2.2
+    · simpa using argsOrdered_of_allNamed _ false hn'
+  · simp only [exposed, exposed_ofArgs, Bool.or_eq_false_iff] at hx ⊢
+    exact ⟨hx.1, by rw [← hp.any_eq]; exact hx.2⟩
+  · simp only [litsCanonical, litsCanonical_ofArgs, Bool.and_eq_true] at hc ⊢
+    exact ⟨hc.1, by rw [← hp.all_eq]; exact hc.2⟩
+  · simp only [mmsCanonical, mmsCanonical_ofArgs, mmsArgsCanonical, Bool.and_eq_true] at hm ⊢
+    refine ⟨?_, hm.2.1, by rw [← hp.all_eq]; exact hm.2.2⟩
+    simp [hn']
+
+/-- What the reader returns for a MINVAL/MAXVAL/SUM call with at most three arguments is in PSyIR
+canonical form … -/
+theorem C02_canon_produces_canonical (cfg : IntrCfg) {a a' : Expr} (hl : argsLen a ≤ 3)
+    (h : canonMMS cfg a = .ok a') : mmsArgsCanonical a' = true :=
+  canonMMS_ok_canonical cfg hl h
+
+/-- … and a fixed point: a second write/read cycle changes nothing. -/
+theorem C02_canon_idempotent (cfg : IntrCfg) {a a' : Expr} (hl : argsLen a ≤ 3)
+    (h : canonMMS cfg a = .ok a') : canonMMS cfg a' = .ok a' :=
+  canonMMS_idempotent cfg hl h
+
+/-- Full statement for the complete reader without the call side condition. -/
+def C02_read_statement : Prop :=
+  ∀ cfg e, wf .expr e = true → exposed .top e = false → litsCanonical e = true →
+    read cfg (render .narrow .top e) = some e
+
+/-! sample calls (ids of the live configuration): `SUM(a, mask=b, dim=c)`, `SUM(a, b, c)`,
+`SUM(a, b)`, `SUM(dim=b, array=a)`, `SUM(a, b, kind=c)` -/
+def fSum : Nat := Gen.mmsFns.headD 0
+def exSumNamed : Expr := .call fSum (.cons none va (.cons (some Gen.kwMask) vb (.cons (some Gen.kwDim) vc .nil)))
+def exSumPos : Expr := .call fSum (.cons none va (.cons none vb (.cons none vc .nil)))
+def exSumTwo : Expr := .call fSum (.cons none va (.cons none vb .nil))
+def exSumArrayKw : Expr := .call fSum (.cons (some Gen.kwDim) vb (.cons (some Gen.kwArray) va .nil))
+def exSumOneNamed : Expr := .call fSum (.cons none va (.cons none vb (.cons (some Gen.kwOther) vc .nil)))
+
+/-- It is FALSE: a MINVAL/MAXVAL/SUM call with positional optional arguments comes back with the
+names added (`SUM(a, b, c)` → `SUM(a, dim=b, mask=c)`), with a named `array` it comes back positional,
+with two positional arguments it is not read at all (NotImplementedError → CodeBlock), and with three
+arguments of which only the last is named that name is OVERWRITTEN by `mask`. -/
+theorem C02_read_noncanonical_counterexample : ¬ C02_read_statement := by
+  intro h
+  have := h liveCfg exSumPos (by decide) (by decide) (by decide)
+  revert this
+  decide
+
+theorem C02_read_noncanonical_witnesses :
+    read liveCfg (render .narrow .top exSumPos) =
+      some (.call fSum (.cons none va (.cons (some Gen.kwDim) vb (.cons (some Gen.kwMask) vc .nil)))) ∧
+    read liveCfg (render .narrow .top exSumTwo) = none ∧
+    read liveCfg (render .narrow .top exSumArrayKw) =
+      some (.call fSum (.cons none va (.cons (some Gen.kwDim) vb .nil))) ∧
+    read liveCfg (render .narrow .top exSumOneNamed) =
+      some (.call fSum (.cons none va (.cons (some Gen.kwDim) vb (.cons (some Gen.kwMask) vc .nil)))) := by
+  decide
+
+/-! non-vacuity: `SUM(a, mask=b, dim=c)` is in the domain of the exact theorem and reads back as itself -/
+example : fSum ∈ liveCfg.mms ∧ wf .expr exSumNamed = true ∧ exposed .top exSumNamed = false ∧
+    litsCanonical exSumNamed = true ∧ mmsCanonical liveCfg exSumNamed = true := by decide
+example : read liveCfg (render .narrow .top exSumNamed) = some exSumNamed := by decide
+example : mmsCanonical liveCfg exSumPos = false ∧ mmsCanonical liveCfg exSumArrayKw = false := by decide
+example : canonMMS liveCfg (.cons none va (.cons none vb (.cons none vc .nil))) =
+    .ok (.cons none va (.cons (some Gen.kwDim) vb (.cons (some Gen.kwMask) vc .nil))) := by decide
+example : canonMMS liveCfg (.cons (some 1) va (.cons none vb .nil)) = .err .generation := by decide
+
+/-! #### tie to the live code: generated tables -/
+
+def mkArgs : Nat → List (Option Nat) → Expr
+  | _, [] => .nil
+  | i, kw :: r => .cons kw (.ref i) (mkArgs (i + 1) r)
+
+def mkOut : List (Nat × Option Nat) → Expr
+  | [] => .nil
+  | (p, kw) :: r => .cons kw (.ref p) (mkOut r)
+
+/-- the table's result encoding; code 9 ("anything else") maps to a result `canonMMSCore` never gives -/
+def resOf (code : Nat) (out : List (Nat × Option Nat)) : CanonRes :=
+  match code with
+  | 0 => .ok (mkOut out)
+  | 2 => .err .internal
+  | 3 => .err .notImplemented
+  | 4 => .err .index
+  | _ => .err .generation
+
+/-- The model of `_canonicalise_minmaxsum` equals the LIVE function on every ordered argument-name
+pattern of length ≤ 3 over {none, array, dim, mask, kind} (the table is regenerated from the live
+code on every run). -/
+theorem gen_canon_table_matches :
+    Gen.canonTable.all (fun r => canonMMSCore liveCfg (mkArgs 0 r.1) == resOf r.2.1 r.2.2) = true ∧
+    Gen.canonTable.length = 112 := by decide
+
+/-- Exactly the intrinsics `Gen.mmsFns` are routed through `_canonicalise_minmaxsum` (no other
+canonicalise function exists); in the live `IntrinsicCall` table each of them has one required
+argument and exactly the optional arguments `dim` and `mask` — so a valid call has ≤ 3 arguments. -/
+theorem gen_canon_routes :
+    Gen.unknownCanonicalisers = 0 ∧ Gen.mmsFns.length = Gen.mmsOptional.length ∧
+    Gen.mmsFns.length = Gen.mmsRequired.length ∧
+    Gen.mmsOptional.all (fun o => o.length == 2 && o.contains Gen.kwDim && o.contains Gen.kwMask) = true ∧
+    Gen.mmsRequired.all (fun r => r == (1, 1)) = true ∧
+    [Gen.kwArray, Gen.kwDim, Gen.kwMask].Nodup := by decide
 
 /-- The precedence table extracted from the live `precedence()` equals the model's, whose levels are
 the grammar levels of Fortran 2008 used by `P` (R704 `**` 8, R708 mult-op 7, R709 add-op 6,
